@@ -370,7 +370,7 @@ func (g *fsGen) next() string {
 				fmt.Sprintf(dom+" 0 writefile %s %s 420", h(base+"/"+d+"/x"+d), h("X")))
 		}
 		g.queue = append(g.queue, fmt.Sprintf(dom+" 0 chmod %s %d", h(base+"/"+which), mode), dom+" 0 setuser 1001 1001 0")
-		for _, q := range []string{"glob " + h(base+"/*/x*"), "glob " + h(base+"/[ab]/x?"), "glob " + h(base+"/?/*"), "walk " + h(base) + " c,c,c", "walk " + h(base) + " -",
+		for _, q := range []string{"glob " + h(base+"/*/x*"), "glob " + h(base+"/[ab]/x?"), "glob " + h(base+"/?/*"), "walk " + h(base) + " c,c,c", "walk " + h(base) + " -", "walk " + h(base) + " d,d,d,d,d,d", "walk " + h(base) + " c,c,d,c,d,c,d", "walk " + h(base) + " c,a,a,a",
 			"readdir " + h(base+"/"+which), "direxists " + h(base+"/"+which), "exists " + h(base+"/"+which+"/x"+which)} {
 			g.queue = append(g.queue, dom+" 0 "+q)
 		}
@@ -440,25 +440,15 @@ func (g *fsGen) next() string {
 	case 10, 11, 12:
 		p := g.noRoot(g.path())
 		q := g.noRoot(g.related(p))
-		if g.opts.orefa {
-			// a Rename into a directory that never had a child ends the history (panic): most of them are drawn again
-			for k := 0; k < 3 && g.orefaEnds("rename", p, q) && r.Bool(75); k++ {
-				p = g.noRoot(g.path())
-				q = g.noRoot(g.related(p))
-			}
-		}
 		return pre + "rename " + h(p) + " " + h(q)
 	case 13, 14:
 		p := g.path()
 		q := g.related(p)
-		if g.opts.orefa {
-			for k := 0; k < 3 && g.orefaEnds("link", p, q) && r.Bool(60); k++ {
-				p = g.path()
-				q = g.related(p)
-			}
-		}
 		return pre + "link " + h(p) + " " + h(q)
 	case 15:
+		if !g.opts.kernel && !g.opts.orefa && r.Bool(5) {
+			return pre + fmt.Sprintf("truncate %s %d", h(g.path()), lib.Pick(r, []int{1 << 31, 1 << 40, 1<<63 - 1}))
+		}
 		return pre + fmt.Sprintf("truncate %s %d", h(g.path()), lib.Pick(r, []int{0, 1, 3, 20, -1}))
 	case 16:
 		if g.opts.kernel { // set-id bits have kernel rules of their own (inheritance, cleared by chown): not part of C01
@@ -506,6 +496,25 @@ func b2i(b bool) int {
 func (g *fsGen) fileOp() string {
 	r := g.r
 	offs := []int{-2, -1, 0, 1, 2, 3, 5, 9, 10, 11, 13, 30}
+	if !g.opts.kernel && !g.opts.orefa && r.Bool(4) {
+		// sizes, offsets and counts far beyond anything that can be served (the kernel accepts sparse files of that size:
+		// not part of the histories compared with it)
+		huge := []int{1 << 31, 1<<31 + 5, 1 << 40, 1 << 62, 1<<63 - 1}
+		switch r.Intn(6) {
+		case 0:
+			return fmt.Sprintf("truncate %d", lib.Pick(r, huge))
+		case 1:
+			return fmt.Sprintf("writeat %s %d", lib.Hex("Y"), lib.Pick(r, huge))
+		case 2:
+			return fmt.Sprintf("seek %d %d", lib.Pick(r, huge), lib.Pick(r, []int{0, 1, 2}))
+		case 3:
+			return fmt.Sprintf("readat %d %d", lib.Pick(r, []int{1, 10}), lib.Pick(r, huge))
+		case 4:
+			return fmt.Sprintf("readdir %d", lib.Pick(r, huge))
+		default:
+			return fmt.Sprintf("readdirnames %d", lib.Pick(r, huge))
+		}
+	}
 	switch r.Intn(16) {
 	case 0, 1:
 		return fmt.Sprintf("read %d", lib.Pick(r, []int{0, 1, 3, 10, 100}))
@@ -517,10 +526,6 @@ func (g *fsGen) fileOp() string {
 		return fmt.Sprintf("writeat %s %d", lib.Hex(lib.Pick(r, []string{"", "Y", "777"})), lib.Pick(r, offs))
 	case 6, 7:
 		off := lib.Pick(r, offs)
-		if g.opts.orefa && off > 3 && r.Bool(70) {
-			// a Read or Write at an offset beyond the end ends the history on OrefaFS: fewer far seeks
-			off = lib.Pick(r, []int{0, 1, 2, 3})
-		}
 		return fmt.Sprintf("seek %d %d", off, lib.Pick(r, []int{0, 0, 1, 2, 2, 5}))
 	case 8:
 		return fmt.Sprintf("truncate %d", lib.Pick(r, []int{-1, 0, 1, 4, 12, 25}))
@@ -544,20 +549,3 @@ func (g *fsGen) fileOp() string {
 	}
 }
 
-// orefaEnds: the call is one of those known to end a history on OrefaFS (Rename whose new parent has a nil children map
-// or is a file, Link whose new parent is the old node).
-func (g *fsGen) orefaEnds(op, o, n string) bool {
-	vfs := g.impl.views[0]
-	oa, _ := vfs.Abs(o)
-	na, _ := vfs.Abs(n)
-	i := strings.LastIndex(na, "/")
-	if i <= 0 || orefaNode(g.impl, oa) == "" {
-		return false
-	}
-	par := na[:i]
-	if op == "link" {
-		return orefaNode(g.impl, par) == orefaNode(g.impl, oa)
-	}
-	fi, err := vfs.Stat(par)
-	return err == nil && (!fi.IsDir() || orefaNilMap(g.impl, par))
-}
